@@ -41,7 +41,7 @@ ASSUMPTIONS = [
     "cases with cond(X0)^2 > 1e10 are skipped as ambiguous (A not determined by the data in double precision)",
     "with PCA the retained subspace is unique only if sigma_k > sigma_{k+1}: relative gap < 1e-6 (exact back-end) or a randomised "
     "back-end whose sketch does not capture the range on a non-gapped spectrum -> ambiguous",
-    "noise-free oscillators: tolerance 1e-6*max(1, cond(X0)^2*kappa(eigenvectors)/1e9) (damping times additionally x max(1, 0.1/|log r|)): "
+    "noise-free oscillators: tolerance 1e-6*max(1, cond(X0)^2*kappa(eigenvectors)/1e8) (damping times additionally x max(1, 0.1/|log r|)): "
     "the code's normal-equation inverse limits what 'the true ones' can mean in double precision",
     "transform == scores to 1e-9*max(1, c/1e4), c = condition of the per-mode 2x2 system in (Re p, Im p)",
     "period of a negative real eigenvalue is 2*pi/pi = 2 (formula of the statement), infinite only where arg(lambda) = 0",
@@ -478,7 +478,7 @@ def run_case(case, obs):
         got = sorted(zip(per.tolist(), dmp.tolist()))
         # error model: the code's A carries eps*cond(X0)^2, its eigenvalues kappa(eigvectors) times that (Bauer-Fike);
         # measured <= 1e-18*cond2*kappa.  d(tau)/tau = d|lambda| / (|lambda| |log|lambda||): up to 50x for |lambda| = 0.98.
-        tol_osc = 1e-6 * max(1.0, cond2 * kappa / 1e9)
+        tol_osc = 1e-6 * max(1.0, cond2 * kappa / 1e8)
         tol_dmp = tol_osc * max(1.0, 0.1 / abs(np.log(r.max())))
         if len(got) == len(want) and np.all(np.isfinite(np.array(got))):
             got, want = np.array(got), np.array(want)
